@@ -391,7 +391,15 @@ def roundtrip(events, cfg):
         elif fmt == 'dict':
             calls += 2
             d = _lib('to_dict', lambda: srcs[0].to_dict())
+            # history: the SAME dictionary object is loaded twice; the second load is the one judged (a loader that
+            # consumes or alters its argument shows here), and the first must agree with it
+            first = _lib('from_dict', lambda: CSEPCatalog.from_dict(d))
             loaded = _lib('from_dict', lambda: CSEPCatalog.from_dict(d))
+            ev1 = _lib('read-back', lambda: _events_of(first))
+            ev2 = _lib('read-back-of-second-load-from-the-same-dict', lambda: _events_of(loaded))
+            if ev1 != ev2:
+                raise _LibError('from_dict-second-load-differs', ValueError(
+                    f'first load from the dictionary has {len(ev1)} events, second load from the same dictionary {len(ev2)}'))
         elif fmt == 'json':
             path = os.path.join(_scratch(), 'c14.json')
             _rm(path)
